@@ -3,6 +3,7 @@ package main
 import (
 	"fmt"
 	"go/ast"
+	"go/token"
 	"go/types"
 	"sort"
 	"strings"
@@ -115,6 +116,75 @@ func runC19(c *Ctx) {
 				sf, c.P.posOf(conflictW.Pos), locksString(conflictW.Locks), conflictW.Chain, rw(conflictA), c.P.posOf(conflictA.Pos), locksString(conflictA.Locks), conflictA.Chain))
 	}
 	c.packageVarsReadOnly("R19.2")
+	c.ruleNoSharedCaptures("R19.3")
+}
+
+// concurrentLiterals: function literals that several goroutines may execute at
+// the same time (the worker-function wrappers, the completion callback, every
+// goroutine body, every callback handed to foreign code).
+func (c *Ctx) concurrentLiterals() []*Func {
+	var out []*Func
+	for _, f := range c.fieldFuncTargets(c.R.FWorkerFn) {
+		out = appendUnique(out, f)
+	}
+	if c.R.Completion != nil {
+		out = appendUnique(out, c.R.Completion)
+	}
+	for _, g := range c.goSites() {
+		if g.body != nil && g.body.Lit != nil {
+			out = appendUnique(out, g.body)
+		}
+	}
+	for _, h := range c.subscriptionHandlers() {
+		if h.Lit != nil {
+			out = appendUnique(out, h)
+		}
+	}
+	return out
+}
+
+// ruleNoSharedCaptures: a literal that runs concurrently must not assign a
+// variable declared outside itself (its own locals, also when assigned from a
+// nested literal, are per invocation and fine).
+func (c *Ctx) ruleNoSharedCaptures(rule string) {
+	c.Rep.rule(rule, "E4 captures", "literals executed by several goroutines never assign variables declared outside themselves", 4)
+	for _, f := range c.concurrentLiterals() {
+		info := f.Info()
+		bad := 0
+		check := func(e ast.Expr, at ast.Node) {
+			id, ok := ast.Unparen(e).(*ast.Ident)
+			if !ok || id.Name == "_" {
+				return
+			}
+			v, ok := info.ObjectOf(id).(*types.Var)
+			if !ok || v.IsField() {
+				return
+			}
+			if v.Pos() >= f.Lit.Pos() && v.Pos() < f.Lit.End() {
+				return // declared inside the literal: one instance per invocation
+			}
+			bad++
+			c.Rep.fail(rule, f.Short(), "assignment to captured variable "+v.Name(), c.P.pos(at),
+				fmt.Sprintf("%s, which several goroutines execute at the same time, assigns %q declared outside it: the invocations share that variable (a data race, and one job can see another job's value)", f.Short(), v.Name()))
+		}
+		ast.Inspect(f.Body, func(n ast.Node) bool {
+			switch x := n.(type) {
+			case *ast.AssignStmt:
+				if x.Tok == token.DEFINE {
+					return true
+				}
+				for _, l := range x.Lhs {
+					check(l, x)
+				}
+			case *ast.IncDecStmt:
+				check(x.X, x)
+			}
+			return true
+		})
+		if bad == 0 {
+			c.Rep.ok(rule, f.Short()+" assigns only its own variables", c.P.pos(f.Body), "all assigned identifiers are declared inside the literal", true)
+		}
+	}
 }
 
 func rw(a *Access) string {
